@@ -34,8 +34,8 @@ def check_functions(repo, rep, funcs, prop_rule="R-UNITS"):
 
 def package_floor(repo, rep):
     an = analysis_for(repo)
-    rep.floor("trig sites with a definite radian argument (package)", an.trig_rad, 1700)
-    rep.floor("Angle(...) constructions classified (package)", an.angle_ctor, 330)
+    rep.floor("trig sites with a definite radian argument (package)", an.trig_rad, 1000)
+    rep.floor("Angle(...) constructions classified (package)", an.angle_ctor, 200)
 
 
 def first_component_pos(repo, rep, funcs, rule="R-POS"):
